@@ -614,4 +614,9 @@ func propC17(r *Run) {
 	}
 
 	c17Corpus(r)
+
+	// auto-detection with the real GenBank reader, streams that change format (props_c17_auto.go)
+	c17Mixed(r)
+	// the CLI path `gts <cmd> -F fasta`
+	c17CLI(r)
 }
